@@ -37,7 +37,9 @@ ASSUMPTIONS = ["input is an oriented manifold polygon surface without isolated v
 RULE = ("random oriented manifold polygon surfaces (grids, Delaunay disks, tori, annuli, spheres, genus 2, strips, single polygons; "
         "holes, merged polygons, 2 components; rotated faces, shuffled, renumbered), sorting on/off; per mesh three cases: "
         "(a) every accessor on every element in canonical order on one instance, (b) a random permutation of sampled queries with "
-        "clear()/clear_boundary_data() interleaved, (c) every accessor as FIRST query of a fresh instance; non-trivial = distinct "
+        "clear()/clear_boundary_data() interleaved, (c) every accessor as FIRST query of a fresh instance, (d) ordered pairs of "
+        "accessors on fresh instances and ask/clear/ask-again histories; the same surfaces also given as tuples / numpy arrays / "
+        "numpy scalars / rows of a 2-D array with numpy-int query arguments; non-trivial = distinct "
         "case on a mesh with ≥ 2 faces in which ≥ 10 queries returned an answer")
 
 # accessor -> argument kinds (v vertex, f face, c corner, e edge, * list of vertices)
@@ -182,11 +184,25 @@ def expand(case, spec=None):
 # ------------------------------------------------------------------------------------------------
 # driving the implementation
 # ------------------------------------------------------------------------------------------------
+REPS = ["list", "tuple", "ndarray", "int32", "npint", "array2d"]
+
+
+def _faces_as(F, rep):
+    """the same face list in another Python representation (the statement is about the surface, not its container types)"""
+    import numpy as np
+    if rep == "tuple": return [tuple(f) for f in F]
+    if rep == "ndarray": return [np.array(f) for f in F]
+    if rep == "int32": return [np.array(f, dtype=np.int32) for f in F]
+    if rep == "npint": return [[np.int64(v) for v in f] for f in F]
+    if rep == "array2d" and len({len(f) for f in F}) == 1: return list(np.array(F, dtype=np.int64))   # rows of one 2-D array (views)
+    return [list(f) for f in F]
+
+
 def _build(case):
     import mouette as M
     d = M.mesh.RawMeshData()
     d.vertices += [M.Vec(float(i % 7), float(i // 7), 0.0) for i in range(case["nv"])]
-    d.faces += [list(f) for f in case["F"]]
+    d.faces += _faces_as(case["F"], case.get("rep", "list"))
     return M.mesh.SurfaceMesh(d)
 
 
@@ -206,6 +222,7 @@ class Run:
         self.case, self.spec = case, spec
         self.m = _build(case)
         self.sort = bool(case["sort"])
+        self.npargs = bool(case.get("npargs"))
 
     def ecanon(self, e):
         if e is None: return None
@@ -288,7 +305,11 @@ def run_history(case, spec, qs):
         out = []
         for name, args in qs:
             try:
-                raw, can = r.call(name, args)
+                if r.npargs:
+                    import numpy as np
+                    raw, can = r.call(name, [np.int64(a) for a in args])   # ids coming out of numpy arrays
+                else:
+                    raw, can = r.call(name, args)
                 out.append((name, args, raw, can, None))
             except Exception as e:  # noqa
                 out.append((name, args, None, _err(e), e))
@@ -520,7 +541,7 @@ def _sample_queries(rng, spec, n):
     return qs
 
 
-def mesh_cases(rng, s, max_full=10 ** 9):
+def mesh_cases(rng, s, max_full=10 ** 9, pairs=0, rep_p=0.0):
     spec = Spec(len(s["V"]), s["F"])
     base = {"nv": len(s["V"]), "F": s["F"], "tag": s["tag"]}
     sort = rng.random() < 0.7
@@ -538,6 +559,26 @@ def mesh_cases(rng, s, max_full=10 ** 9):
     for a in ACCESSORS:
         H.append([[a, rng.choice(spec.domain(a))]] + _sample_queries(rng, spec, 2))
     out.append(dict(base, sort=sort, mode="first", H=H))
+    # (d) ordered PAIRS of accessors on a fresh instance (a cheap query may fill part of the caches the next one relies on),
+    #     and "ask, clear, ask again": the lazily cached structure is requested again after connectivity.clear() /
+    #     clear_boundary_data(); same answers expected (the mesh did not change)
+    if pairs:
+        H = []
+        for _ in range(pairs):
+            a, b = rng.choice(ACCESSORS), rng.choice(ACCESSORS)
+            H.append([[a, rng.choice(spec.domain(a))], [b, rng.choice(spec.domain(b))]])
+        for a in rng.sample(ACCESSORS, min(len(ACCESSORS), max(4, pairs // 4))):
+            qa = [a, rng.choice(spec.domain(a))]
+            clr = rng.choice([["clear", []], ["m.clear_boundary_data", []], ["clear", []]])
+            H.append([qa, clr, qa] + _sample_queries(rng, spec, 1) + [qa])
+        out.append(dict(base, sort=(sort or rng.random() < 0.7), mode="pairs", H=H))
+    # input representation: the same surface given as tuples / numpy arrays / numpy scalars, ids passed as numpy ints
+    if rng.random() < rep_p:
+        c = dict(rng.choice(out))
+        c["rep"] = rng.choice(REPS[1:])
+        c["npargs"] = rng.random() < 0.5
+        if c["mode"] == "full" and spec.nc > 400: c = dict(c, mode="perm", H=[_sample_queries(rng, spec, 60)])
+        out.append(c)
     return out
 
 
@@ -550,7 +591,7 @@ def cases(rng, tier):
         for k in range(n):
             size = mf if k % 3 == 0 else max(4, mf // 3) if k % 3 == 1 else 12
             s = G.random_surface(rng, size)
-            for c in mesh_cases(rng, s, max_full):
+            for c in mesh_cases(rng, s, max_full, pairs=(40 if k % 3 == 2 else 12 if k % 3 == 1 else 0), rep_p=0.5):
                 yield c
     # hand-made corner cases
     for F, nv in [([[0, 1, 2]], 3), ([[0, 1, 2], [2, 1, 3]], 4), ([[0, 1, 2, 3]], 4),
@@ -569,6 +610,7 @@ def classify(case, obs):
     st = G.surface_stats(case["nv"], case["F"])
     nf = len(case["F"])
     ks = ["mode:" + case.get("mode", "?"), "sort:" + ("on" if case["sort"] else "off"),
+          "faces-as:" + case.get("rep", "list"), "args-as:" + ("numpy-int" if case.get("npargs") else "int"),
           "family:" + case.get("tag", "?").split("+")[0],
           "faces:" + ("1" if nf == 1 else "2-9" if nf < 10 else "10-39" if nf < 40 else "40-149" if nf < 150 else "150+"),
           "loops:" + str(min(st["loops"], 3)) + ("+" if st["loops"] >= 3 else ""), "chi:" + str(st["chi"]),
@@ -577,12 +619,15 @@ def classify(case, obs):
     if case.get("mode") != "full":
         for h in case["H"]:
             for q in h: ks.append("q:" + q[0])
+            if len(h) >= 3 and h[1][0] in ("clear", "m.clear_boundary_data") and h[0] == h[2]: ks.append("history:ask-clear-ask-again")
+            elif case.get("mode") == "pairs": ks.append("history:ordered-pair")
     return ks
 
 
 def describe(case):
     return {"nv": case["nv"], "faces": case["F"][:12], "n_faces": len(case["F"]), "sort": case["sort"], "mode": case.get("mode"),
-            "tag": case.get("tag"), "histories": len(case["H"]), "first_history": [q for q in case["H"][0][:6]]}
+            "tag": case.get("tag"), "faces_given_as": case.get("rep", "list"), "numpy_int_arguments": bool(case.get("npargs")),
+            "histories": len(case["H"]), "first_history": [q for q in case["H"][0][:6]]}
 
 
 # ------------------------------------------------------------------------------------------------
@@ -669,7 +714,7 @@ def search_on_break(rng, broken, mismatches):
     """extra inputs for the failing-input search: small meshes of every family, every accessor first + full sweep"""
     for _ in range(40):
         s = G.random_surface(rng, rng.choice([6, 16, 40]))
-        for c in mesh_cases(rng, s):
+        for c in mesh_cases(rng, s, pairs=40, rep_p=0.3):
             yield c
 
 
